@@ -4,3 +4,10 @@ Extraction Language OCaml.
 Extraction "model.ml" mkGraph dist_matrix ecc_ref diam_ref rad_ref comp_ref comps_ref
   zgirth blocks_ref artic_ref cycles_ref icycles_ref ipaths_ref icycles_bounded_ref ipaths_bounded_ref
   distance_go eccentricity_go diameter_go radius_go connected_component_go connected_components_go girth_go number_of_induced_paths_go.
+(* + the model of BiconnectedComponents (Invariants/BlockModel.v); a later Extraction of the same
+   file name replaces the earlier one, so this line repeats every name above *)
+From Mamba Require Import Invariants.BlockModel.
+Extraction "model.ml" mkGraph dist_matrix ecc_ref diam_ref rad_ref comp_ref comps_ref
+  zgirth blocks_ref artic_ref cycles_ref icycles_ref ipaths_ref icycles_bounded_ref ipaths_bounded_ref
+  distance_go eccentricity_go diameter_go radius_go connected_component_go connected_components_go girth_go number_of_induced_paths_go
+  biconnected_components_go.
